@@ -22,6 +22,7 @@ static unsigned mklen (int scheme, int i)
 {	static const unsigned fixed [] = { 0, 1, 2, 3, 4, 5, 7, 8, 255, 256, 1023, 4095 } ;
 	switch (scheme) { case 0 : return fixed [i % 12] ; case 1 : return 1 + vh_rint (40) ; case 2 : return 13 ; case 3 : return (i % 17 == 0) ? 20000 + vh_rint (45537) : vh_rint (64) ; default : return vh_rint (300) ; } }
 
+static char wlog [200] ;
 static void run_case (int format, int ch, int n, int idscheme, int lenscheme, int mix, int late)
 {	MEMF m ; SNDFILE *s ; SF_INFO ri ; CH *cs = calloc (n + 2, sizeof (CH)) ; const char *fn = vh_fname (format) ; int i, N = 777, rc, fp = vh_is_fp (format & SF_FORMAT_SUBMASK) ;
 	const char *idq = idscheme == 3 ? "|reserved-ids" : idscheme == 2 ? "|ids-shorter-than-4" : "" ;
@@ -44,8 +45,13 @@ static void run_case (int format, int ch, int n, int idscheme, int lenscheme, in
 		if (vh_check_inv (s, "sf_set_chunk")) { n = i + 1 ; break ; }
 		if ((mix & 2) && i == n / 2) sf_set_string (s, SF_STR_ARTIST, "artist between chunks") ;
 		}
-	over = total > 50000 ? "|total>50KB" : "" ;		/* the header cache grows by doubling up to 100 KiB: totals beyond ~50-64 KB may not fit */
-	if (sf_writef_short (s, audio, N) != N) vh_viol (vh_key ("C13|audio-write|%s%s", fn, over), "audio write failed after %d chunks: %s", n, sf_strerror (s)) ;
+	{	sf_count_t wrote = sf_writef_short (s, audio, N) ;
+		{	static char wl [16384] ; char *d ; wl [0] = 0 ; sf_command (s, SFC_GET_LOG_INFO, wl, sizeof (wl)) ; d = strstr (wl, "denied") ; wlog [0] = 0 ; if (d) { char *b = d ; while (b > wl && b [-1] != '\n') b-- ; snprintf (wlog, sizeof (wlog), " [writer log: %.100s]", b) ; if (strchr (wlog, '\n')) *strchr (wlog, '\n') = ']' ; } }
+		/* the header cache refuses to grow once a single request needs more than 51200 bytes (2 x needed > 100 KiB): payload totals above 50 KB never fit;
+		** between 44 KB and 50 KB of payload the per-chunk overhead and the container's own chunks decide, and the writer's log says whether the cap was hit */
+		over = total > 50000 ? "|total>50KB" : (total > 44000 && wlog [0]) ? "|total>50KB-with-overhead" : "" ;
+		if (wrote != N) vh_viol (vh_key ("C13|audio-write|%s%s", fn, over), "audio write failed after %d chunks: %s", n, sf_strerror (s)) ;
+		}
 	if (late)
 	{	SF_CHUNK_INFO ci ; memset (&ci, 0, sizeof (ci)) ; snprintf (ci.id, sizeof (ci.id), "late") ; ci.id_size = 4 ; ci.datalen = 24 ; ci.data = "late chunk after audio!!" ;
 		rc = sf_set_chunk (s, &ci) ; vh_stat (rc ? "late_chunk_refused" : "late_chunk_accepted", 1) ;
@@ -56,7 +62,7 @@ static void run_case (int format, int ch, int n, int idscheme, int lenscheme, in
 
 	s = vh_open_r (&m, format, ch, 44100, &ri) ;
 	if (s == NULL)
-	{	vh_viol (vh_key ("C13|reopen-failed|%s%s%s", fn, over, idq), "%d chunks (id scheme %d, %ld payload bytes): %s", n, idscheme, total, sf_strerror (NULL)) ; goto done ; }
+	{	vh_viol (vh_key ("C13|reopen-failed|%s%s%s", fn, over, idq), "%d chunks (id scheme %d, %ld payload bytes): %s%s", n, idscheme, total, sf_strerror (NULL), wlog) ; goto done ; }
 	/* audio */
 	back = vh_guard_alloc (sizeof (short) * (N + 2) * ch, 0) ;
 	{	sf_count_t g = sf_readf_short (s, back, N + 2) ; int expN = N + (late == 2) ;
@@ -142,18 +148,18 @@ int main (int argc, char **argv)
 	for (a = 0 ; a < 5 ; a++) for (b = 0 ; b < (vh_thorough ? 3 : 2) ; b++) for (c = 1 ; c <= 2 ; c++)
 	{	int format = majors [a] | subs [b] ;
 		if (!vh_accepts (format, c, 44100)) continue ;
-		for (k = 0 ; k < (int) (sizeof (counts) / sizeof (counts [0])) ; k++) for (ids = 0 ; ids < 5 ; ids++)
-		{	int reps = vh_thorough ? 4 : 2, r ;
+		for (k = 0 ; k < (vh_thorough ? 221 : (int) (sizeof (counts) / sizeof (counts [0]))) ; k++) for (ids = 0 ; ids < 5 ; ids++)
+		{	int reps = vh_thorough ? 20 : 6, r, cnt = vh_thorough ? k : counts [k] ;		/* thorough: every chunk count 0..220 */
 			if (c == 2 && !vh_thorough && (k % 3)) continue ;
 			for (r = 0 ; r < reps ; r++)
-			{	if (!vh_case ("%s ch=%d chunks=%d ids=%d rep=%d", vh_fname (format), c, counts [k], ids, r)) continue ;
+			{	if (!vh_case ("%s ch=%d chunks=%d ids=%d rep=%d", vh_fname (format), c, cnt, ids, r)) continue ;
 				ls = (int) ((vh_case_idx + r) % 5) ;
 				{	int mix = vh_rint (4), late = (vh_rint (5) == 0) ? 1 + vh_rint (2) : 0 ;
-					if (counts [k] > 60 && ls == 0) ls = 1 ;			/* keep the header under the 100 KiB cache unless the case is about the cap */
-					vh_distinct (vh_fnv (0, &format, 4) ^ ((uint64_t) c << 33) ^ ((uint64_t) counts [k] << 36) ^ ((uint64_t) ids << 46) ^ ((uint64_t) ls << 50) ^ ((uint64_t) mix << 54) ^ ((uint64_t) late << 58) ^ r) ;
+					if (cnt > 60 && ls == 0) ls = 1 ;			/* keep the header under the 100 KiB cache unless the case is about the cap */
+					vh_distinct (vh_fnv (0, &format, 4) ^ ((uint64_t) c << 33) ^ ((uint64_t) cnt << 36) ^ ((uint64_t) ids << 46) ^ ((uint64_t) ls << 50) ^ ((uint64_t) mix << 54) ^ ((uint64_t) late << 58) ^ r) ;
 					vh_statf (1, "fmt:%s", vh_fname (format)) ;
-					vh_sample ("%s ch=%d: %d chunks, id scheme %d (0 distinct,1 duplicates,2 1-4 chars,3 reserved,4 random), length scheme %d, strings mixed in=%d, chunk set after audio=%d", vh_fname (format), c, counts [k], ids, ls, mix, late) ;
-					run_case (format, c, counts [k], ids, ls, mix, late) ;
+					vh_sample ("%s ch=%d: %d chunks, id scheme %d (0 distinct,1 duplicates,2 1-4 chars,3 reserved,4 random), length scheme %d, strings mixed in=%d, chunk set after audio=%d", vh_fname (format), c, cnt, ids, ls, mix, late) ;
+					run_case (format, c, cnt, ids, ls, mix, late) ;
 					}
 				}
 			}
